@@ -43,3 +43,18 @@ add("C04", "E1",
     "All occurrence sequences up to length 6 over 15 names (case, underscore, digits, Greek, braced names with blanks, digits, emoji, operator look-alikes, {a}=a) under three operator patterns; var_names must equal the BTreeSet order of the distinct names and the symbolic value must bind the n-th value to every occurrence of the n-th name; every slice length 0..n+2 through eval/eval_relaxed/eval_vec/eval_iter on flat, uncompiled, deep and deep-derived flat forms; 15-20 distinct variables; operator application, substitution and differentiation list the sorted union.",
     "As C01; Rust string order = String::cmp.",
     "DESIGN.md §3 C04")
+add("C06", "E4",
+    "crash-contained exhaustive sweeps in worker subprocesses: all token strings up to a length bound over alphabets covering every token class (blank-separated and concatenated), all single/double token edits of well-formed texts, deterministic families of nesting depth 1..100 and up to 1000 tokens, x every parsing entry point x the follow-up calls",
+    "Every enumerated text goes through FlatEx::parse, parse_wo_compile, eval_str, DeepEx::parse, parse_val, line_2_statement(_val) and serde deserialisation; accepted texts are evaluated, converted both ways, unparsed, listed, operated on, substituted and differentiated. Panics are caught per call; aborts, stack overflows (explicit 8 MiB stack) and hangs kill the worker and are attributed to the case (one process per deep case, bisection elsewhere) and confirmed in a fresh process.",
+    "Trusted: process isolation and the watchdog of harness/src/sweep.rs. Known findings (stack overflow in partial() for >= 110 operands / >= 54 nesting levels) are listed in known_findings.jsonl.",
+    "DESIGN.md §3 C06")
+add("C16", "E1",
+    "exhaustive operator x operand-catalogue sweep (all ordered pairs, three routes) against an independent three-valued reference interpreter, plus bounded-exhaustive trees over the real value table",
+    "Every operator of ValOpsFactory::<i32,f64> on every catalogue value / ordered pair (about 110 values incl. MIN/MAX, NaN, infinities, signed zeros, 2^31 boundaries, bools, arrays of length 0..5, none, error) via function pointer, via variables at evaluation time and via literal spellings folded at parse time must return exactly what the documentation promises or an error value where it demands one; all trees up to the stated size over the real table (priorities and flags read from the factory, incl. if/else, comparisons, vector operators) must agree with reference parser + reference interpreter.",
+    "Trusted: harness/src/valref.rs (reading of the documentation; situations it leaves open are 'unspecified' and only checked for totality).",
+    "DESIGN.md §3 C16")
+add("C17", "E1",
+    "exhaustive operator x operand-catalogue sweep for totality (no panic) and mandatory error values, three routes, two instantiations",
+    "Every unary operator x every catalogue value and every binary operator x every ordered pair for ValOpsFactory::<i32,f64> (function pointer, evaluation time, parse-time folding) and ValOpsFactory::<i64,f32> (function pointer): no call may panic, and overflow, invalid casts, negation/abs of the smallest integer, MIN % -1 and wrong operand kinds must yield Val::Error.",
+    "Panics are unwinding (overflow-checks on) and caught per call.",
+    "DESIGN.md §3 C17")
